@@ -185,6 +185,53 @@ func c11Run(c *engine.Ctx) {
 			}
 		}
 	})
+	// rings with many vertices: lattice hulls (convex) and combs (many horizontal and vertical
+	// edges, vertices level with the query points), queried at every vertex, every edge midpoint
+	// and a grid of other points (coordinates doubled so that midpoints are representable)
+	var bigRings [][]ref.P2
+	for _, m := range []int{37, 1009} {
+		var pts []ref.P2
+		for k := 0; k < 200; k++ {
+			pts = append(pts, ref.P2{X: float64(2 * ((k * 7919) % m)), Y: float64(2 * ((k*104729 + k*k) % m))})
+		}
+		h := ref.Hull(pts)
+		if len(h) >= 3 {
+			bigRings = append(bigRings, append(append([]ref.P2{}, h...), h[0]))
+		}
+	}
+	for _, teeth := range []int{10, 40, 100} {
+		var comb []ref.P2
+		for t := 0; t < teeth; t++ {
+			x := float64(4 * t)
+			comb = append(comb, ref.P2{X: x, Y: 0}, ref.P2{X: x, Y: float64(8 + 2*(t%3))}, ref.P2{X: x + 2, Y: float64(8 + 2*(t%3))}, ref.P2{X: x + 2, Y: 0})
+		}
+		comb = append(comb, ref.P2{X: float64(4 * teeth), Y: 0}, ref.P2{X: float64(4 * teeth), Y: -4}, ref.P2{X: 0, Y: -4})
+		bigRings = append(bigRings, append(comb, comb[0]))
+	}
+	c.Note("large_rings", len(bigRings))
+	c.Parallel(len(bigRings), func(i int) {
+		r := bigRings[i]
+		for _, rev := range []bool{false, true} {
+			var ring []ref.F
+			for k := range r {
+				q := r[k]
+				if rev {
+					q = r[len(r)-1-k]
+				}
+				ring = append(ring, ref.F(q.X), ref.F(q.Y))
+			}
+			query := func(x, y float64) {
+				c.Count("large_ring_queries", 1)
+				c11Exec(c, c11Case{Mode: "ring", Ring: ring, P: []ref.F{ref.F(x), ref.F(y)}, Layout: geom.XY})
+			}
+			for k := 1; k < len(r); k++ {
+				query(r[k].X, r[k].Y)
+				query((r[k].X+r[k-1].X)/2, (r[k].Y+r[k-1].Y)/2)
+				query(r[k].X+1, r[k].Y)
+				query(r[k].X-1, r[k].Y+1)
+			}
+		}
+	})
 	// split-ratio sweep: a point strictly inside a slanted edge, dividing it a:b for all a,b <= 24
 	// in 10 directions (the exact-sign determinant reduces such configurations step by step)
 	dirs := [][2]float64{{1, 1}, {1, 2}, {2, 1}, {1, -1}, {3, 1}, {1, 3}, {2, -3}, {5, 2}, {-3, 7}, {7, -4}}
